@@ -70,7 +70,9 @@ def bt(ctx, flavours):
                 if cfg.dominates(bi, nbi):
                     main_seed = bi
             elif isinstance(v, tuple) and v[0] == 'call' and v[1].endswith('Index<I>>::index') and strip_payload(v[2][0]) == P1_:
-                pass  # single-edge special case: tree[0]
+                # tree[len-1] is last(); any other index is the single-edge special case tree[0]
+                if _is_len_minus_1(v[2][1]) and cfg.dominates(bi, nbi):
+                    main_seed = bi
             else:
                 seeds_ok = False
                 seed_why.append('seed %s is not an element of the edge tree' % pretty(v))
@@ -83,6 +85,15 @@ def bt(ctx, flavours):
         recognised = None
         if over_tree and is_rev and names.count('rev') == 1:
             extra = [n for n in names if n not in ('rev', 'iter', 'into_iter', 'deref')]
+            # tree[..len-1] / tree[..=k]: a slice of the tree
+            slices = [c for c in term_calls(chain) if c[1].endswith('Index<I>>::index') and strip_payload(c[2][0]) == P1_ and isinstance(c[2][1], tuple) and c[2][1][0] == 'aggr']
+            if len(slices) == 1 and sorted(set(extra)) in (['index'], ['index', 'len']):
+                rng = slices[0][2][1]
+                if rng[1] == 'adt:std::ops::RangeTo::RangeTo' and _is_len_minus_1(rng[2][0]):
+                    recognised = 'skip(rev(iter(tree)),1)'   # tree[..len-1]: everything but the seed
+                else:
+                    recognised = None
+                extra = ['<slice>']
             if not extra:
                 recognised = 'rev(iter(tree))'
             elif extra == ['skip']:
@@ -151,6 +162,14 @@ def bt(ctx, flavours):
         okr = len(revs) == 1 and strip_payload(pv.of_operand(revs[0][1]['args'][0])) == path_term and not cfg.path_exists(revs[0][0], nbi) and cfg.path_exists(nbi, revs[0][0])
         O('BT-rev', 'path reversed once after the scan (root first)', okr, 'ok' if okr else '%d reverse calls / misplaced' % len(revs))
     return out
+
+
+def _is_len_minus_1(t):
+    t = deep_unwrap(t)
+    if isinstance(t, tuple) and t[0] == 'f' and isinstance(t[1], tuple) and t[1][0] == 'binop':
+        t = t[1]
+    return isinstance(t, tuple) and t[0] == 'binop' and t[1].startswith('Sub') and isinstance(t[2][0], tuple) and t[2][0][0] == 'call' and t[2][0][1].endswith('::len') and \
+        strip_payload(t[2][0][2][0]) == P1_ and t[2][1] == ('const', '1_usize')
 
 
 def path_api(ctx, flavours):
